@@ -61,8 +61,9 @@ From Coq Require Import ZArith.
 From Coq Require String.
 From OmegaGen Require BitsGen.
 From OmegaGP Require Import CounterWidth.
+From Omega Require Import L4.Plays.
 From OmegaGP Require Import TransducerModel TransducerBridge StreettTProofs StreettNB2 StreettNB4 StreettIter2
-  StreettClosure1 StreettClosure2 StreettLive4.
+  StreettClosure1 StreettClosure2 StreettLive4 StreettWins.
 
 Theorem C02_construction_is_translated :
   forall nc nx ny G (E S EI SI : bdd) (holds goals : list bdd) (moore plus_one : bool)
@@ -215,6 +216,27 @@ Proof.
   exact (streett_impl_live nc nx ny E S holds goals moore plus_one fuel Hf Sh Sg G HG sigma Hb Hc0).
 Qed.
 
+(* (h) IN GAME TERMS (theories/L4/Plays.v): the synthesized implementation,
+   read as a strategy - at every step the component takes the first step the
+   translated construction's action allows, with the goal counter as memory -
+   wins from every state of the region: EVERY play consistent with it keeps
+   the component's action as the mode obliges and, if the environment keeps
+   its action forever, satisfies persistence or recurrence.  (a)-(g) combined
+   into the notion of winning of C01.  Depends on Classical_Prop.classic. *)
+Theorem C02_implementation_wins_the_game :
+  forall nc nx ny (E S : bdd) (holds goals : list bdd) (moore plus_one : bool) fuel G c s,
+  NV nc nx ny <= fuel -> Forall spred holds -> Forall spred goals ->
+  0 < G -> length goals <= G -> 0 < length goals -> c < nc ->
+  fst s < nx -> snd s < ny ->
+  fst (fst (Gr1Gen.solve_streett_game nc nx ny E S holds goals moore plus_one fuel))
+    (stv c s) = true ->
+  comp_wins nx ny moore (win_streett c E S holds goals plus_one) s.
+Proof.
+  intros nc nx ny E S holds goals moore plus_one fuel G c s Hf Sh Sg HG HnG Hg Hc.
+  exact (implementation_wins nc nx ny E S holds goals moore plus_one fuel Hf Sh Sg G HG HnG Hg
+           c Hc s).
+Qed.
+
 (* non-vacuity: a game with a non-trivial winning region and two goals *)
 Example C02_never_blocks_example :
   let E : bdd := fun v => true in
@@ -237,6 +259,7 @@ Print Assumptions C02_never_blocks.
 Print Assumptions C02_region_closed.
 Print Assumptions C02_reachable_states_winning.
 Print Assumptions C02_liveness.
+Print Assumptions C02_implementation_wins_the_game.
 Print Assumptions C02_refines_component_action.
 Print Assumptions C02_obligation_at_the_step.
 Print Assumptions C02_moore_independent_of_next_env.
